@@ -167,8 +167,20 @@ def model_check(module, cfg=None, timeout=1800, workers=NCPU, env=None, coverage
     return r
 
 # ------------------------------------------------------------------ trace validation
+def _drop_partial_tail(trace):
+    """a harness that was killed in mid-write leaves a truncated last line; everything before it is still a valid record"""
+    data = open(trace, "rb").read()
+    if not data or data.endswith(b"\n"):
+        lines = data.split(b"\n")
+        if len(lines) >= 2:
+            try: json.loads(lines[-2] or b"{}")
+            except ValueError: open(trace, "wb").write(b"\n".join(lines[:-2]) + (b"\n" if len(lines) > 2 else b""))
+        return
+    open(trace, "wb").write(data[:data.rfind(b"\n") + 1])
+
 def _validate_one(args):
     module, trace, rej, timeout = args
+    _drop_partial_tail(trace)
     n = sum(1 for l in open(trace) if l.strip())
     if n == 0:
         return dict(trace=trace, n=0, rejects=[], ok=True, out="")
